@@ -285,6 +285,12 @@ def memo_discipline(ctx):
             g = [a for a in ancestors(r) if isinstance(a, ast.If)]
             okg = any(isinstance(x.test, ast.Compare) and 'len(%s)' % cache in norm(x.test) for x in g)
             ctx.ob(ok and okg, u, 'on overflow the same computation is returned uncached: %s' % norm(r), node=r)
+    over = [r for r in rets if isinstance(r.value, ast.Call) and is_name(r.value.func, cu.name)]
+    ctx.ob(len(over) == 1, u, 'a full memo is bypassed (the path is built and returned uncached), never evicted',
+           '' if len(over) == 1 else 'no `return create()` on the overflow path')
+    evict = [c for c in calls_in(u) if isinstance(c.func, ast.Attribute) and c.func.attr in ('clear', 'pop', 'popitem')
+             and is_name(c.func.value, cache)]
+    ctx.ob(not evict, u, 'the memo never evicts entries', '%s' % [norm(c) for c in evict])
     # membership test guards the store
     tests = [n for n in u.own_nodes() if isinstance(n, ast.If) and isinstance(n.test, ast.Compare)
              and isinstance(n.test.ops[0], ast.NotIn) and is_name(n.test.left, text) and is_name(n.test.comparators[0], cache)]
